@@ -13,6 +13,7 @@ inductive Op (P : Type) where
   | cancel (id : Nat)
   | exec
   | tick (fund : Option P)
+  | jump (k : Nat) (fund : Option P)
   | setRunning (b : Bool)
 deriving Repr
 
@@ -34,6 +35,7 @@ def Market.step (ops : PriceOps P) (m : Market P) : Op P → Market P × List (R
     | .ok (m', fs) => (m', fs.map Rec.fill)
     | .error _ => (m, [])
   | .tick f => ((m.tick ops f).1, (m.tick ops f).2.map Rec.expiry)
+  | .jump k f => ((m.setTime ops (k + 1) f).1, (m.setTime ops (k + 1) f).2.map Rec.expiry)
   | .setRunning b => ({ m with running := b }, [])
 
 /-- run a whole history, collecting the trace -/
